@@ -160,26 +160,9 @@ def change (F : Funs M Mask) (s : St M Mask) (old : Option Ref) (dst src : Ref) 
       let h3 := runCb o.after h2 old dst
       (h3, none)
 
-/-- allocate a fresh cell -/
-def St.alloc (s : St M Mask) (m : M) : St M Mask × Ref :=
-  ({ s with heap := s.heap.set s.next m, next := s.next + 1 }, s.next)
-
-/-- `Value.Set(owned[i], opts)` -/
-def vset (F : Funs M Mask) (s : St M Mask) (i : Nat) (o : WOpts M Mask) : St M Mask × Ans :=
-  match s.owned[i]? with
-  | none => (s, .malformed)
-  | some src =>
-    match F.validate s.writable o.umask (s.heap src) with
-    | some e => (s, .fail e)
-    | none =>
-      -- GetAndUpdate: newValue = proto.Clone(oldValue)   (nil → allocated by changeFn: same cell here)
-      let (s0, dst) := s.alloc (match s.val with | some r => s.heap r | none => F.zero)
-      match change F s0 s.val dst src o with
-      | (_, some e) => (s0, .fail e)
-      | (h, none) =>
-        let s1 := { s0 with heap := h, val := some dst, pub := s0.pub ++ [dst] }
-        let (s2, evs) := emit F "V" none (some dst) s1 s1.vsubs
-        (s2, .ok (.msg dst :: evs))
+/-- allocate a private cell (neither published nor caller-owned) -/
+def St.alloc (s : St M Mask) (m : M) : St M Mask :=
+  { s with heap := s.heap.set s.next m, next := s.next + 1 }
 
 def lookup (c : List (Nat × Ref)) (id : Nat) : Option Ref := (c.find? (·.1 = id)).map (·.2)
 
@@ -192,6 +175,32 @@ def insertSorted (id : Nat) (r : Ref) : List (Nat × Ref) → List (Nat × Ref)
 
 def erase (id : Nat) (c : List (Nat × Ref)) : List (Nat × Ref) := c.filter (·.1 ≠ id)
 
+/-- The end of `Value.Set` / `Collection.Update`: `res` is the outcome of `changeFn`; on success the
+new message `dst` is saved (`target = none`: the Value; `some id`: the collection item), returned and
+sent to the subscribers. `s0` already contains the private allocations of the call. -/
+def commit (F : Funs M Mask) (s0 : St M Mask) (target : Option Nat) (tag : String) (oldEv : Option Ref)
+    (dst : Ref) (res : Heap M × Option Err) : St M Mask × Ans :=
+  match res.2 with
+  | some e => (s0, .fail e)
+  | none =>
+    let s1 : St M Mask := match target with
+      | none => { s0 with heap := res.1, val := some dst, pub := s0.pub ++ [dst] }
+      | some id => { s0 with heap := res.1, coll := insertSorted id dst s0.coll, pub := s0.pub ++ [dst] }
+    let r := emit F tag oldEv (some dst) s1 (match target with | none => s1.vsubs | some _ => s1.csubs)
+    (r.1, .ok (.msg dst :: r.2))
+
+/-- `Value.Set(owned[i], opts)` -/
+def vset (F : Funs M Mask) (s : St M Mask) (i : Nat) (o : WOpts M Mask) : St M Mask × Ans :=
+  match s.owned[i]? with
+  | none => (s, .malformed)
+  | some src =>
+    match F.validate s.writable o.umask (s.heap src) with
+    | some e => (s, .fail e)
+    | none =>
+      -- GetAndUpdate: newValue = proto.Clone(oldValue)   (nil → allocated by changeFn: same cell here)
+      let s0 := s.alloc (match s.val with | some r => s.heap r | none => F.zero)
+      commit F s0 none "V" none s.next (change F s0 s.val s.next src o)
+
 /-- `Collection.Update(id, owned[i], opts)` (Add = expectAbsent + createIfAbsent) -/
 def cupd (F : Funs M Mask) (s : St M Mask) (id : Nat) (i : Nat) (o : WOpts M Mask) : St M Mask × Ans :=
   match s.owned[i]? with
@@ -203,41 +212,35 @@ def cupd (F : Funs M Mask) (s : St M Mask) (id : Nat) (i : Nat) (o : WOpts M Mas
       match lookup s.coll id with
       | some old =>
         if o.expectAbsent then (s, .fail .alreadyExists) else
-        let (s0, dst) := s.alloc (s.heap old)
-        match change F s0 (some old) dst src o with
-        | (_, some e) => (s0, .fail e)
-        | (h, none) =>
-          let s1 := { s0 with heap := h, coll := insertSorted id dst s0.coll, pub := s0.pub ++ [dst] }
-          let (s2, evs) := emit F "U" (some old) (some dst) s1 s1.csubs
-          (s2, .ok (.msg dst :: evs))
+        let s0 := s.alloc (s.heap old)
+        commit F s0 (some id) "U" (some old) s.next (change F s0 (some old) s.next src o)
       | none =>
         if !o.createIfAbsent then (s, .fail .notFound) else
         -- created := msg.New(); it is what interceptors see as `old`; it is never stored or published
-        let (sc, created) := s.alloc F.zero
-        let (s0, dst) := sc.alloc F.zero
-        match change F s0 (some created) dst src o with
-        | (_, some e) => (s0, .fail e)
-        | (h, none) =>
-          let s1 := { s0 with heap := h, coll := insertSorted id dst s0.coll, pub := s0.pub ++ [dst] }
-          let (s2, evs) := emit F "A" none (some dst) s1 s1.csubs
-          (s2, .ok (.msg dst :: evs))
+        let s0 := (s.alloc F.zero).alloc F.zero
+        commit F s0 (some id) "A" none (s.next + 1) (change F s0 (some s.next) (s.next + 1) src o)
 
-/-- `Collection.Delete(id, opts)`: returns the stored reference; the REMOVE event carries it as old value. -/
+/-- Delete's precondition checks on the stored contents: `expectedCheck` then `expectedValue` -/
+def delCheck (F : Funs M Mask) (o : WOpts M Mask) (c : M) : Option Err :=
+  match (match o.check with | some f => f (some c) | none => none) with
+  | some e => some e
+  | none =>
+    match o.expected with
+    | some e => if F.eq c e then none else some Err.failedPrecondition
+    | none => none
+
+/-- `Collection.Delete(id, opts)`: returns the stored reference (also when a precondition fails);
+the REMOVE event carries it as old value. -/
 def cdel (F : Funs M Mask) (s : St M Mask) (id : Nat) (o : WOpts M Mask) : St M Mask × Ans :=
   match lookup s.coll id with
   | none => if o.allowMissing then (s, .ok [.absent]) else (s, .fail .notFound)
   | some old =>
-    match (match o.check with | some f => f (some (s.heap old)) | none => none) with
+    match delCheck F o (s.heap old) with
     | some e => ({ s with pub := s.pub ++ [old] }, { err := some e, items := [.msg old] })
     | none =>
-      match (match o.expected with
-             | some e => if F.eq (s.heap old) e then none else some Err.failedPrecondition
-             | none => none) with
-      | some e => ({ s with pub := s.pub ++ [old] }, { err := some e, items := [.msg old] })
-      | none =>
-        let s1 := { s with coll := erase id s.coll, pub := s.pub ++ [old] }
-        let (s2, evs) := emit F "R" (some old) none s1 s1.csubs
-        (s2, .ok (.msg old :: evs))
+      let s1 : St M Mask := { s with coll := erase id s.coll, pub := s.pub ++ [old] }
+      let r := emit F "R" (some old) none s1 s1.csubs
+      (r.1, .ok (.msg old :: r.2))
 
 def closeSub (subs : List (Sub Mask)) (i : Nat) : List (Sub Mask) :=
   subs.mapIdx fun j sub => if j = i then { sub with live := false } else sub
